@@ -19,7 +19,8 @@ from .common import Check, run_tlc_sharded, require_model_ok
 from .realeval import ev, close
 
 INVS = ["InvFirst", "InvSecond", "InvCutoff", "InvShift1", "InvShift2", "InvNoSymLJ", "InvAlgebra",
-        "InvLeaves", "InvGrid", "InvDomain", "InvLead"]
+        "InvLeaves", "InvGrid", "InvDomain", "InvLead", "InvEdges"]
+SESSION_INVS = ["InvHeld", "InvDomain", "InvPool"]
 MEMBERS = ("s1", "s1c", "s2")
 
 
@@ -32,53 +33,160 @@ def env_of(par, r):
             "A": q(par["A"]), "alpha": q(par["alpha"]), "r": q(r)}
 
 
-def call_model(lib, model, env, shift, how, adefault=False, numpy_floats=False):
-    """Call the public API for one point.  `how` = "method" | "caller"."""
+NAMES = ("eps", "sigma", "rc", "n", "A", "alpha", "r")
+OWN = {"lennard_jones": (), "inverse_power_law": ("ipl_n", "ipl_A"), "harmonic_hertz": ("harmonic_hertz_alpha",)}
+FIELD = {"ipl_n": "n", "ipl_A": "A", "harmonic_hertz_alpha": "alpha"}
+
+
+def numbers(par, r, style):
+    """Rendering of the rational leaves: Python floats, numpy scalars, or Python ints wherever the value is
+    an integer (0 and 0.0, 10 and 10.0, 2 and 2.0 are the same abstract input)."""
+    out = {}
+    for k in NAMES:
+        x = r if k == "r" else par[k]
+        if style == "ints" and x[1] == 1:
+            out[k] = int(x[0])
+        elif style == "numpy":
+            out[k] = np.float64(x[0] / x[1])
+        else:
+            out[k] = x[0] / x[1]
+    return out
+
+
+def has_default(lib, field):
+    import dataclasses
+    for f in dataclasses.fields(lib.InteractionParams):
+        if f.name == field:
+            return f.default is not dataclasses.MISSING or f.default_factory is not dataclasses.MISSING
+    return False
+
+
+def make_params(lib, model, v, supply):
+    """InteractionParams for `model` with the fields named in `supply` given (the others keep the defaults of the
+    public dataclass)."""
+    kw = {f: v[FIELD[f]] for f in supply}
+    return lib.InteractionParams(model_name=lib.ModelName[model], **kw)
+
+
+def call_model(lib, model, v, shift, how, pi=None):
+    """Call the public API for one point; v = rendered numbers.  `how`:
+         method           direct method with its parameters
+         method-defaultA  inverse_power_law(n): documented default A = 1.0
+         caller           selector, every field supplied (decoys for the fields of the other models)
+         caller-minimal   selector, only the fields of the requested model supplied
+         caller-omitted-A selector, inverse power law without ipl_A: the prefactor is the one the params object holds
+       Returns (triple, A in effect)."""
     H = lib
-    cast = np.float64 if numpy_floats else float
-    pi = H.PairInteractions(cast(env["r"]), cast(env["eps"]), cast(env["sigma"]), cast(env["rc"]), shift)
-    if how == "caller":
-        # every parameter is supplied: the selector must use those of the requested model only
-        ip = H.InteractionParams(model_name=H.ModelName[model], ipl_n=env["n"], ipl_A=env["A"],
-                                 harmonic_hertz_alpha=env["alpha"])
-        return pi.caller(ip)
+    if pi is None:
+        pi = H.PairInteractions(v["r"], v["eps"], v["sigma"], v["rc"], shift)
+    if how.startswith("caller"):
+        if how == "caller":
+            ip = make_params(H, model, v, ("ipl_n", "ipl_A", "harmonic_hertz_alpha"))
+        elif how == "caller-minimal":
+            ip = make_params(H, model, v, OWN[model])
+        else:
+            ip = make_params(H, model, v, ("ipl_n",))
+        return pi.caller(ip), float(ip.ipl_A)
     if model == "lennard_jones":
-        return pi.lennard_jones()
+        return pi.lennard_jones(), float(v["A"])
     if model == "inverse_power_law":
-        if adefault:
-            return pi.inverse_power_law(env["n"])          # documented default A = 1.0
-        return pi.inverse_power_law(n=env["n"], A=env["A"])
-    return pi.harmonic_hertz(alpha=env["alpha"])
+        if how == "method-defaultA":
+            return pi.inverse_power_law(v["n"]), 1.0          # documented default A = 1.0
+        return pi.inverse_power_law(n=v["n"], A=v["A"]), float(v["A"])
+    return pi.harmonic_hertz(alpha=v["alpha"]), float(v["A"])
 
 
 def check_point(chk, lib, terms, point, r, idx):
     """Compare the triple at one (parameter point, distance).  Returns False on violation."""
     model, shift, par = point["model"], point["shift"], point["par"]
     env = env_of(par, r)
-    exp = [float(ev(terms[k], env)) for k in MEMBERS]
-    variants = [("method", False), ("caller", False)]
+    exp0 = [float(ev(terms[k], env)) for k in MEMBERS]
+    variants = [("method", "float"), ("caller", "float"), ("caller-minimal", "float")]
     if point.get("Adefault"):
-        variants.append(("method-defaultA", False))
+        variants.append(("method-defaultA", "float"))
+    if any((r if k == "r" else par[k])[1] == 1 for k in NAMES):
+        variants += [("method", "ints"), ("caller", "ints")]          # 0 for 0.0, 10 for 10.0, ...
     if idx % 3 == 0:
-        variants.append(("caller", True))            # numpy scalars, as diagonalize_hessian passes them
-    for how, npf in variants:
-        base = {"model": model, "shift": shift, "par": par, "r": r, "how": how, "numpy_floats": npf,
-                "terms": terms, "expected": exp}
+        variants.append(("caller", "numpy"))         # numpy scalars, as diagonalize_hessian passes them
+        if model == "inverse_power_law" and has_default(lib, "ipl_A"):
+            variants.append(("caller-omitted-A", "float"))
+    for how, style in variants:
+        base = {"model": model, "shift": shift, "par": par, "r": r, "how": how, "style": style, "terms": terms}
         try:
-            obs = call_model(lib, model, env, shift, "method" if how.startswith("method") else "caller",
-                             adefault=(how == "method-defaultA"), numpy_floats=npf)
+            obs, a_eff = call_model(lib, model, numbers(par, r, style), shift, how)
             obs = [float(x) for x in obs]
         except Exception as e:  # the library failing on a valid input is a violation
             chk.violation(f"raises:{type(e).__name__}", dict(base, error=str(e)))
             return False
+        exp = exp0
+        if how == "caller-omitted-A" and a_eff != env["A"]:
+            # the prefactor in effect is the one the params object holds (its public default)
+            exp = [float(ev(terms[k], dict(env, A=a_eff))) for k in MEMBERS]
+            base["A_in_effect"] = a_eff
+        base["expected"] = exp
         if len(obs) != 3:
             chk.violation("triple-shape", dict(base, observed=obs))
             return False
         for k, name in enumerate(MEMBERS):
             if not close(obs[k], exp[k]):
                 # the direct method is compared first: a caller() mismatch after it passed is the selector's
-                clause = ("selector:" if how == "caller" else "") + f"{name}:{model}:shift={'on' if shift else 'off'}"
+                clause = ("selector:" if how.startswith("caller") else "") + f"{name}:{model}:shift={'on' if shift else 'off'}"
                 chk.violation(clause, dict(base, observed=obs, member=name))
+                return False
+        key = f"{how}/{style}"
+        chk.extra.setdefault("call_variants", {})[key] = chk.extra.get("call_variants", {}).get(key, 0) + 1
+    return True
+
+
+# --------------------------------------------------------------------------
+# sessions: triples held across later calls (MC_PairPotSession)
+# --------------------------------------------------------------------------
+def bind_env(b):
+    return {k: q(b[k]) for k in ("eps", "sigma", "rc", "n", "A", "alpha", "r")}
+
+
+def replay_session(chk, lib, terms, sess):
+    """Make the calls of the session in order, keep every returned object (no copy), compare afterwards.
+    Returns True / False (violation reported)."""
+    calls, held, fresh = sess["calls"], sess["held"], sess["fresh"]
+    exps, vs = [], []
+    for h in held:
+        env = bind_env(h["bind"])
+        t = terms[(h["model"], h["shift"])]
+        exps.append([float(ev(t[k], env)) for k in MEMBERS])
+        vs.append({k: q(h["bind"][k]) for k in NAMES})
+    base = {"session": sess}
+    try:
+        if fresh:
+            # one object per call, all results collected by a comprehension
+            results = [call_model(lib, c["model"], v, h["shift"], c["via"])[0] for c, h, v in zip(calls, held, vs)]
+            at_return = None
+        else:
+            objs, results, at_return = {}, [], []
+            for c, h, v in zip(calls, held, vs):
+                if c["ii"] not in objs:
+                    objs[c["ii"]] = lib.PairInteractions(v["r"], v["eps"], v["sigma"], v["rc"], h["shift"])
+                res = call_model(lib, c["model"], v, h["shift"], c["via"], pi=objs[c["ii"]])[0]
+                results.append(res)                              # the object itself is held
+                at_return.append([float(x) for x in res])        # its value at the time of return
+    except Exception as e:
+        chk.violation(f"raises:{type(e).__name__}", dict(base, error=str(e)))
+        return False
+    for k, (res, exp) in enumerate(zip(results, exps)):
+        now = [float(x) for x in res]
+        info = dict(base, call_index=k + 1, call=calls[k], expected=exp, held_value_after_the_session=now)
+        if len(now) != 3:
+            chk.violation("triple-shape", info)
+            return False
+        for j, name in enumerate(MEMBERS):
+            if not close(now[j], exp[j]):
+                if at_return is not None and not close(at_return[k][j], exp[j]):
+                    # wrong already when it was returned: the point grid reports that; here only if a history is needed
+                    chk.violation(f"session:{name}:{calls[k]['model']}:wrong-at-return-after-earlier-calls",
+                                  dict(info, value_at_return=at_return[k], member=name))
+                else:
+                    chk.violation(f"held:{name}:{calls[k]['model']}:changed-by-a-later-call",
+                                  dict(info, value_at_return=None if at_return is None else at_return[k], member=name))
                 return False
     return True
 
@@ -91,22 +199,29 @@ def run(tier, replay=None):
                 "D(s), D(D(s)), s'(r_c) and the force-shift identities against the documented closed forms as invariants in "
                 "every state; one state per (model, shift, parameter point). Every emitted point is replayed at every distance "
                 "of its grid into the direct method and into caller() (all parameters supplied); distinct = parameter points.")
+    chk.rule += (" Boundary values of the domain (A = 0, A < 0, eps = 0, eps < 0, r_c = sigma, Hertz at contact for integer alpha >= 3) are "
+                 "points of the grid; integer-valued numbers are also passed as Python ints, parameters of other models omitted, ipl_A omitted. "
+                 "Sessions (MC_PairPotSession): all ordered pairs of calls of the pool followed by hash-chosen calls, every returned triple held "
+                 "and compared after the last call (clauses InvHeld / KeepHeld).")
     chk.assumptions = ["identity of real-power sums is concluded from agreement on more distances than twice the number of monomials (invariant InvGrid)",
                        "Hertz: alpha > 1, cut-off = sigma when shifting (documented s'(r_c) = 0); non-integer alpha only for r < sigma; r = sigma excluded",
                        "float comparison at 1e-9 abs + 1e-9 rel"]
     if replay:
         case = common.load_replay(replay)["case"]
+        if "session" in case:
+            print(json.dumps({k: v for k, v in case.items() if k != "terms"}, indent=1))
+            return 0
         env = env_of(case["par"], case["r"])
         exp = [float(ev(case["terms"][k], env)) for k in MEMBERS]
         try:
-            obs = call_model(lib, case["model"], env, case["shift"],
-                             "method" if case["how"].startswith("method") else "caller",
-                             adefault=(case["how"] == "method-defaultA"), numpy_floats=case.get("numpy_floats", False))
+            obs, _ = call_model(lib, case["model"], numbers(case["par"], case["r"], case.get("style", "float")),
+                                case["shift"], case["how"])
             obs = [float(x) for x in obs]
         except Exception as e:
             obs = f"raises {type(e).__name__}: {e}"
         print(json.dumps({"model": case["model"], "shift": case["shift"], "par": case["par"], "r": case["r"],
-                          "how": case["how"], "expected[s1,s1c,s2]": exp, "observed": obs}, indent=1))
+                          "how": case["how"], "style": case.get("style", "float"),
+                          "expected[s1,s1c,s2]": case.get("expected", exp), "observed": obs}, indent=1))
         return 0
     r = run_tlc_sharded("MC_PairPot", dict(constants={"Tier": tier, "SEED": common.SEED % 1000}, invariants=INVS + ["Emit"]),
                         nshards=2 if tier == "quick" else 4)
@@ -137,5 +252,27 @@ def run(tier, replay=None):
                    sample={"model": p["model"], "shift": p["shift"], "par": p["par"], "r": p["rs"][0],
                            "expected[s1,s1c,s2]": [float(ev(t[k], env_of(p["par"], p["rs"][0]))) for k in MEMBERS]})
     chk.extra["distances_compared"] = ndist
+    chk.extra["boundary_points"] = sum(1 for p in points if p.get("edge"))
+    # histories: every triple handed out is held to the end of the session and compared then
+    rs = run_tlc_sharded("MC_PairPotSession", dict(constants={"Tier": tier, "SEED": common.SEED % 1000},
+                                                   invariants=SESSION_INVS + ["Emit"], properties=["KeepHeld"]),
+                         nshards=2 if tier == "quick" else 4)
+    require_model_ok(rs, "MC_PairPotSession")
+    chk.add_tlc(rs, "MC_PairPotSession (InvHeld, KeepHeld) + emission")
+    sessions = [c for c in rs.cases if c.get("m") == "Session"]
+    if not sessions or not any(s["fresh"] for s in sessions) or all(s["fresh"] for s in sessions):
+        raise common.MachineryError(f"MC_PairPotSession emitted {len(sessions)} sessions")
+    nheld = 0
+    nbad = 0
+    for sess in sessions:
+        if replay_session(chk, lib, terms, sess):
+            chk.ok(("S", sess["fresh"], json.dumps(sess["idx"])))
+            nheld += len(sess["calls"])
+        else:
+            nbad += 1
+            if nbad >= 5:
+                break
+    chk.extra["sessions"] = len(sessions)
+    chk.extra["held_triples_compared"] = nheld
     chk.exhaustive = True
     return chk.finish()
